@@ -1301,6 +1301,7 @@ def analyse_function(sm, q, f, owner, fd, acls, probes, sites, buffers, class_me
             if keyed:
                 # locals computed from the parameters (key = tuple(amounts)) count as the parameters
                 dep = dep or sorted(x for x in names_in(node.test) if x not in ("self",))
+                MEMO_KEY_KINDS["%s[%s]" % (fname, fld)] = memo_key_kind(fd, node.test, fld, allp)
             class_memos.setdefault(acls.name, []).append((fd.name, fld, dep, fname, in_init, keyed))
 
     # ---- a method that hands back a newly built object (derive / branch / to_public ...) must not write its receiver
@@ -1517,6 +1518,94 @@ def memo_is_keyed(test, fld):
     return False
 
 
+# site name of a keyed memo -> ("copies" | "aliases", how): filled by analyse_function, completed by the in-place probe
+MEMO_KEY_KINDS = {}
+MEMO_KEYS = []          # rows of `Gen.Alias.memoKeys`: (site name, key copies the argument's contents?, evidence)
+
+# calls that build a NEW immutable object from the CONTENTS of their argument
+COPYING_CALLS = {"tuple", "bytes", "frozenset", "str", "repr", "hash", "int", "len", "sum", "hexlify", "sorted_tuple"}
+
+
+def memo_key_kind(fd, test, fld, params):
+    """how the key of a keyed memo is built from the parameters. The key is the expression compared with what is
+    stored in self.<fld> (`self._m[0] != key`); a local name is followed to its (single) assignment in the method.
+    copies: a call of tuple / bytes / frozenset / str ... (new immutable object holding the contents at call time);
+    aliases: a parameter itself, an attribute / element of it, or a display (tuple / list literal) containing one -
+    the stored key then IS the caller's object and compares equal to itself after an in-place edit."""
+    expr = None
+    for v in (test.values[1:] if isinstance(test, ast.BoolOp) else []):
+        if isinstance(v, ast.Compare) and len(v.comparators) == 1:
+            sides = [v.left, v.comparators[0]]
+            mine = [e for e in sides if any(isinstance(n, ast.Attribute) and isinstance(n.value, ast.Name)
+                                            and n.value.id == "self" and n.attr == fld for n in ast.walk(e))]
+            other = [e for e in sides if e not in mine]
+            if mine and other:
+                expr = other[0]
+    if expr is None:
+        return ("aliases", "cannot find the key expression in the guard")
+    seen = 0
+    while isinstance(expr, ast.Name) and expr.id not in params and seen < 4:
+        seen += 1
+        defs = [st.value for st in ast.walk(fd) if isinstance(st, ast.Assign) and len(st.targets) == 1
+                and isinstance(st.targets[0], ast.Name) and st.targets[0].id == expr.id]
+        if len(defs) != 1:
+            return ("aliases", "the key `%s` has %d assignments" % (expr.id, len(defs)))
+        expr = defs[0]
+    text = ast.unparse(expr)
+
+    def aliasing(e):
+        if isinstance(e, ast.Name):
+            return e.id in params
+        if isinstance(e, (ast.Attribute, ast.Subscript, ast.Starred)):
+            return aliasing(e.value)
+        if isinstance(e, (ast.Tuple, ast.List, ast.Set)):
+            return any(aliasing(x) for x in e.elts)
+        return False
+    if aliasing(expr):
+        return ("aliases", "key = %s holds the caller's object" % text)
+    if isinstance(expr, ast.Call) and call_name(expr) in COPYING_CALLS:
+        # tuple(p) copies the list but not its elements: elements that are parameters' own mutable objects are found by the
+        # in-place probe (it edits the elements too); an argument that is a comprehension over attributes (sc.data) is fine
+        return ("copies", "key = %s is a new immutable object built from the contents" % text)
+    if isinstance(expr, ast.Constant):
+        return ("copies", "key = %s is a constant" % text)
+    return ("aliases", "key = %s: cannot tell that it copies the argument's contents" % text)
+
+
+def probe_memo_inplace(clsname, method):
+    """the caller keeps ONE list, edits it in place and hands the same object in again; then edits the elements in
+    place (objects with a `.data` attribute). Both answers must equal those of a fresh receiver."""
+    fx = _memo_fixtures().get(clsname)
+    if fx is None or method not in fx[1]:
+        return "notProbed", "no fixture for %s.%s" % (clsname, method)
+    mk, calls = fx
+    (l1,), (l2,) = calls[method]
+    try:
+        r = mk()
+        held = list(l1)
+        getattr(r, method)(held)
+        held[:] = list(l2)
+        second = getattr(r, method)(held)
+        fresh = getattr(mk(), method)(list(l2))
+        third = fresh3 = None
+        if all(hasattr(x, "data") for x in l1):
+            r = mk()
+            held = [type(x)(x.data) for x in l1]
+            getattr(r, method)(held)
+            for x, y in zip(held, l2):
+                x.data = y.data
+            third = getattr(r, method)(held)
+            fresh3 = getattr(mk(), method)([type(y)(y.data) for y in l2])
+    except Exception as e:
+        return "notProbed", "%s.%s raised %s: %s" % (clsname, method, type(e).__name__, e)
+    txt = "a = list(A1); x.%s(a); a[:] = A2; x.%s(a) (the same list object) vs fresh.%s(A2)" % (method, method, method)
+    if second != fresh:
+        return "confirmedUnsafe", txt + " differ (the stored key is the caller's list)"
+    if third != fresh3:
+        return "confirmedUnsafe", txt + " agree, but after editing the ELEMENTS in place (s.data = ...) the answers differ"
+    return "confirmedSafe", txt + " agree (also with the elements edited in place)"
+
+
 def memo_sites(sm, mod, class_memos, class_nodes, sites):
     for cname, memos in sorted(class_memos.items()):
         cls = getattr(mod, cname, None)
@@ -1570,7 +1659,17 @@ def memo_sites(sm, mod, class_memos, class_nodes, sites):
                 continue
             if keyed:
                 res, txt = probe_memo(cname, meth)
-                sites.append(Site("%s[%s]" % (fname, fld), ".memoKeyed", res,
+                name = "%s[%s]" % (fname, fld)
+                kind, how = MEMO_KEY_KINDS.get(name, ("aliases", "key expression not analysed"))
+                res2, txt2 = probe_memo_inplace(cname, meth)
+                copies = kind == "copies" and res2 != "confirmedUnsafe"
+                MEMO_KEYS.append((name, copies, "%s; %s" % (how, txt2)))
+                if res == "confirmedSafe" and (res2 == "confirmedUnsafe" or kind != "copies"):
+                    res = "confirmedUnsafe" if res2 == "confirmedUnsafe" else "notProbed"
+                    txt = txt + "; BUT " + how + "; " + txt2
+                elif res2 == "confirmedSafe":
+                    txt = txt + "; " + how + "; " + txt2
+                sites.append(Site(name, ".memoKeyed", res,
                                   "self.%s holds (key, value); the guard recomputes when the key built from the arguments "
                                   "differs; %s" % (fld, txt), witness=txt if res == "confirmedUnsafe" else None))
                 continue
@@ -1639,6 +1738,8 @@ def _dedent(src):
 
 def generate():
     import facts
+    MEMO_KEY_KINDS.clear()
+    del MEMO_KEYS[:]
     sites, buffers, skipped, stats = collect()
     names = {}
     for s in sites:
@@ -1670,6 +1771,18 @@ def generate():
     w("def outBuffers : List (String × String × Nat × String × BufKind × String) := [")
     w(",\n".join('  (%s, %s, %d, %s, .%s, %s)' % (lean_str(q), lean_str(nat), i, lean_str(n), how if how != "unknown" else "unknownBuf",
                                                  lean_str(det)) for (q, nat, i, n, how, det) in buffers))
+    w("]")
+    w("")
+    w("/-- keyed memos: (site, does the stored key COPY the argument's contents?) - `false`: the key is (or contains) the")
+    w("    caller's object, so an in-place edit of that object makes the memo answer from the past (Model/HeapAlias.lean).")
+    w("    From the AST of the guard's key expression AND a run-time probe that edits the caller's list in place. -/")
+    w("def memoKeys : List (String × Bool) := [")
+    w(",\n".join("  (%s, %s)" % (lean_str(n), "true" if cp else "false") for (n, cp, ev) in MEMO_KEYS))
+    w("]")
+    w("")
+    w("/-- evidence for `memoKeys`, same order -/")
+    w("def memoKeyEvidence : List String := [")
+    w(",\n".join("  " + lean_str(ev[:400]) for (n, cp, ev) in MEMO_KEYS))
     w("]")
     w("")
     w("end Embit.Gen.Alias")
